@@ -28,7 +28,9 @@ type c16Scenario struct {
 	Latency int64     `json:"latency_ns"`
 }
 
-var textAlphabet = []string{"a", "b", "Z", "0", "9", "-", "_", ".", " ", "&", "<", ">", "\"", "'", "]]>", "é", "ü", "✓", "日本", "\t", "/", "@", ":", "=", "%", "+", " ", "𝔘"}
+var textAlphabet = []string{"a", "b", "Z", "0", "9", "-", "_", ".", " ", "&", "<", ">", "\"", "'", "]]>", "é", "ü", "✓", "日本", "\t", "/", "@", ":", "=", "%", "+", " ", "𝔘",
+	// text that looks like a character reference after one round of unescaping
+	"&amp;", "&lt;", "&#65;", "&#x41;", "&copy", "&notes", "&quot;", ";"}
 
 // genText draws an arbitrary string; attribute-legal after escaping.
 func genText(g G, kind string, allowEmpty bool) string {
